@@ -67,7 +67,7 @@ def run(ctx):
 
 def explore_cases(ctx, drv, interp):
     rng = ctx.rng
-    n = 110 if ctx.tier == "quick" else 2000
+    n = 300 if ctx.tier == "quick" else 2000
     os.environ.pop(ENVVAR, None)
     for i in range(n):
         if ctx.left() < 25:
